@@ -52,14 +52,24 @@ func (e *unaryMathExpr) Merge(b []byte, x []byte, y []byte) ([]byte, []byte, []b
 }
 
 func (e *unaryMathExpr) SubMergers(subs []Expr) []SubMerge {
-	ssms := e.Wrapped.SubMergers(subs)
 	sms := make([]SubMerge, len(subs))
+	matched := false
 	for i, sub := range subs {
 		if e.String() == sub.String() {
-			sms[i] = ssms[i]
+			sms[i] = e.subMerge
+			matched = true
 		}
 	}
-	return ssms
+	if matched {
+		// We have an exact match, use that
+		return sms
+	}
+	return e.Wrapped.SubMergers(subs)
+}
+
+func (e *unaryMathExpr) subMerge(data []byte, other []byte, otherRes time.Duration, metadata goexpr.Params) {
+	// the state of a unary function is the state of what it wraps
+	e.Wrapped.Merge(data, data, other)
 }
 
 func (e *unaryMathExpr) Get(b []byte) (float64, bool, []byte) {
